@@ -145,6 +145,19 @@ class Universe:
         add("list(f3,f9)", N("ExprList", False, (f3, f9)))
         add("list(f9,f3)", N("ExprList", False, (f9, f3)))
         add("list(f3,f9,f1)", N("ExprList", False, (f3, f9, f1)))
+        # every node type with a varying number of operands: operand lists that are proper prefixes of one another
+        varying = sorted(t.name for t in self.tm.concrete() if t.traits.get("num_ops") == "varying" and not t.traits.get("is_terminal") and t.name not in ("ExprList",) and not self.tm.get(t.name).cls.is_subclass_of("BaseFormOperator"))
+        self.varying_types = varying
+        for tname in varying:
+            try:
+                self.K(tname)
+            except Exception:
+                continue
+            a2 = add(f"{tname}(f3,f9)", N(tname, False, (f3, f9)))
+            a3 = add(f"{tname}(f3,f9,f1)", N(tname, False, (f3, f9, f1)))
+            add(f"{tname}(f3,f9,f1,f2)", N(tname, False, (f3, f9, f1, f2)))
+            add(f"sin({tname}(f3,f9))", N("Sin", False, (a2,)))
+            add(f"sin({tname}(f3,f9,f1))", N("Sin", False, (a3,)))
         add("(f3+f9)*sin(f10)", N("Product", False, (N("Sum", False, (f3, f9)), N("Sin", False, (f10,)))))
         add("(f3+f10)*sin(f10)", N("Product", False, (N("Sum", False, (f3, f10)), N("Sin", False, (f10,)))))
 
